@@ -3,11 +3,15 @@ import vf
 
 H_INDEX = dict(pkg_dir="index", run="TestVerifC21$", files=["index/zz_verif_c01_test.go", "index/zz_verif_c21_test.go"], n_quick=120, n_thorough=3000)
 H_TOTAL = dict(pkg_dir="search", run="TestVerifC21Total$", files=["search/zz_verif_c21_test.go"], n_quick=24, n_thorough=400)
-IMPORTS = ["From ZV Require Import Lib.Base Model.SearchCore Model.SearchLimits."]
+H_DEADLINE = dict(pkg_dir="search", run="TestVerifC21Deadline$", files=["search/zz_verif_c21deadline_test.go"], n_quick=16, n_thorough=160)
+IMPORTS = ["From ZV Require Import Lib.Base Model.SearchCore Model.SearchLimits Model.SearchDeadline."]
 RULE = ("C01's corpora (real shards: 1-3 repositories, 1-10 documents, tombstones) x broad and random query trees x limit settings "
         "(ShardMaxMatchCount in {default,1..6,100}, ShardRepoMaxMatchCount in {0,1,2,3}, both, LineMatches / ChunkMatches) and cancellation "
         "through a context whose Done() reports closed after k in 0..5 polls; plus 2-5 single-repository shards behind a real shardedSearcher "
-        "(one worker) x TotalMaxMatchCount in 1..5; non-trivial = the limited run returns fewer files / shard results than the unlimited one.")
+        "(one worker) x TotalMaxMatchCount in 1..5; non-trivial = the limited run returns fewer files / shard results than the unlimited one. "
+        "Deadline cases: 2-7 fake shards (1+ of them returning only when their context is done) behind a real shardedSearcher x Search / "
+        "StreamSearch x {MaxWallTime only, MaxWallTime with a later / earlier caller deadline, caller deadline only, caller cancels while "
+        "the slow shards are running (with / without a far MaxWallTime)}; non-trivial = some deadline is set.")
 TRUSTED = ["correspondence harnesses harness/overlay/index/zz_verif_c21_test.go (+ zz_verif_c01_test.go) and harness/overlay/search/zz_verif_c21_test.go "
            "(generators; oracle: limited files are a subsequence of the unlimited files with reflect.DeepEqual FileMatch values, prefix when no "
            "per-repository limit, every repository kept under ShardRepoMaxMatchCount=1, whole shard results under the total limit)",
@@ -16,7 +20,9 @@ TRUSTED = ["correspondence harnesses harness/overlay/index/zz_verif_c21_test.go 
            "theorem C21_file_payload_independent)",
            "total limit: one worker (GOMAXPROCS(1)) so that shard results arrive in dispatch order; the number of in-flight shards at stop() is "
            "existentially quantified (<= 3) in the comparison",
-           "promptness of real deadlines is runtime behaviour: only 'terminates, no panic' is observed (polled context)"]
+           "deadlines: the wiring (which context the shard searches receive) is compared with the model exactly (deadline of the context a "
+           "fake shard is handed); promptness in real time is an oracle with a generous bound (return within 20x the deadline; a shard that "
+           "ignores its context is outside the model: shards are cooperative, indexData.Search polls ctx.Done() per document)"]
 ASSUME = ["as C01: valid UTF-8, agree, sizes < 2^32"]
 
 
@@ -38,7 +44,8 @@ def run(ctx):
     if not proofs["ok"]:
         broken.append("proof obligations of Props/%s.v do not check: %s" % (pid, (proofs.get("broken_files") or proofs.get("nonstd_axioms") or proofs["log"][-800:])))
     allcases, evaluated, mism = [], 0, 0
-    for h, ctype, fn, tag in ((H_INDEX, "c21case", "c21_mismatches", "i"), (H_TOTAL, "c21tcase", "c21t_mismatches", "t")):
+    for h, ctype, fn, tag in ((H_INDEX, "c21case", "c21_mismatches", "i"), (H_TOTAL, "c21tcase", "c21t_mismatches", "t"),
+                              (H_DEADLINE, "c21dcase", "c21d_mismatches", "d")):
         n = ctx.n(h["n_quick"], h["n_thorough"])
         hr = vf.go_harness(ctx, h["pkg_dir"], h["run"], h["files"], n, timeout=900 if ctx.tier == "quick" else 3600, out_name="out-%s.jsonl" % tag)
         recs = hr["records"]
